@@ -23,14 +23,14 @@ def main():
     steps = [1, 2, 50, 119, 120, 121, 149, 150, 151, 169, 170, 171, 279, 280, 281, 1119, 1120, 1121, 1279, 1280, 1281, 5119, 5120, 5121, 5280, 5281, 60000]
     opts = {"steps": steps, "p_place": 0.6, "p_manage": 0.6, "p_inplay": 0.2, "no_remove": True, "p_remove": 0.0, "kinds": ["L"] * 9 + ["LOC"], "min_upd": 7, "max_upd": 14, "p_fok": 0.1}
     scs = [simgen.gen_scenario(rng, opts) for _ in range(n)]
-    simcheck.run_family(ck, "timing_single_market", scs, propcheck.c07, "C07", "timing")
+    simcheck.run_family(ck, "timing_single_market", scs, propcheck.c07, "C07", "timing", hyp=True)
     # event-grouped runs: updates of other markets of the same event in between
     scs2 = [simgen.gen_scenario(rng, dict(opts, nmarkets=[2, 3], group=True, same_time=True, p_close=0.3)) for _ in range(n // 2)]
-    simcheck.run_family(ck, "timing_event_groups", scs2, propcheck.c07, "C07", "timing-groups")
+    simcheck.run_family(ck, "timing_event_groups", scs2, propcheck.c07, "C07", "timing-groups", hyp=True)
     # requests for ANOTHER market of the event than the one whose update is being processed (placements and cancels/updates/replaces of orders
     # resting there): the request time is the time of the update being processed, the bet delay that of the target market
     scs5 = [simgen.gen_scenario(rng, dict(opts, nmarkets=[2, 3], group=True, same_time=True, p_close=0.3, p_cross=0.3)) for _ in range(n // 2)]
-    simcheck.run_family(ck, "cross_market_requests", scs5, propcheck.c07, "C07", "timing-cross")
+    simcheck.run_family(ck, "cross_market_requests", scs5, propcheck.c07, "C07", "timing-cross", hyp=True)
     # custom latencies (whole ms), away from the exact boundary only by construction of the generator's steps
     scs3 = []
     for _ in range(n // 3):
@@ -38,14 +38,14 @@ def main():
         s["config"].update({"place_latency": rng.choice([0.05, 0.12, 0.5, 1.0]), "cancel_latency": rng.choice([0.05, 0.17, 0.3]),
                             "update_latency": rng.choice([0.05, 0.15, 0.4]), "replace_latency": rng.choice([0.1, 0.28, 0.6])})
         scs3.append(s)
-    simcheck.run_family(ck, "custom_latencies", scs3, propcheck.c07, "C07", "timing-custom")
+    simcheck.run_family(ck, "custom_latencies", scs3, propcheck.c07, "C07", "timing-custom", hyp=True)
     # asynchronous placement (config.async_place_orders): the simulated delay must be the same
     scs4 = []
     for _ in range(n // 3):
         s = simgen.gen_scenario(rng, dict(opts, p_inplay=0.5))
         s["config"]["async_place"] = True
         scs4.append(s)
-    simcheck.run_family(ck, "async_placement", scs4, propcheck.c07, "C07", "timing-async")
+    simcheck.run_family(ck, "async_placement", scs4, propcheck.c07, "C07", "timing-async", hyp=True)
     return ck.finish("scenarios on the real FlumineSimulation with update spacings from 1 ms to a minute hitting delay-1/delay/delay+1 ms for all four request kinds and bet delays 0/1/5 (changing at in-play), several requests between two updates, 1-3 markets (event-grouped: updates of other markets in between), default and custom latencies; compared with the Coq model; independent checker: effect at the first update of the market later than request+delay, pending/transient until then, clock = publish time in every callback, fragment times")
 
 
